@@ -251,8 +251,12 @@ func handshakeRealRef(k *mon.Case, cfg sessCfg, realInit bool) *session {
 		if refGarbage == ref.MaxGarbageLen && step == "CompleteHandshake" {
 			key = "handshake:garbage-len-4095-rejected"
 		}
-		k.Failf(key, "%s: real %s failed against a spec-conforming peer: %v (peer garbage %d, own garbage %d, peer decoys %v, own decoys %v, magic %08x, v1match %d)",
-			mode, step, err, refGarbage, realGarbage, refDecoyLens, realDecoys, cfg.Magic, cfg.V1Match)
+		extra := ""
+		if cfg.Teaser && s.ref != nil {
+			extra = fmt.Sprintf("; peer garbage %x, peer terminator %x", refGarb, s.ref.SendTerm)
+		}
+		k.Failf(key, "%s: real %s failed against a spec-conforming peer: %v (peer garbage %d, own garbage %d, peer decoys %v, own decoys %v, magic %08x, v1match %d)%s",
+			mode, step, err, refGarbage, realGarbage, refDecoyLens, realDecoys, cfg.Magic, cfg.V1Match, extra)
 		return nil
 	}
 	failRef := func(step string, err error) *session {
